@@ -1,3 +1,6 @@
 pub mod c05;
+pub mod c08;
 pub mod c12;
 pub mod dhcp_hist;
+pub mod dnsmisc;
+pub mod dnswire;
